@@ -81,6 +81,24 @@
 (*   an id is fresh by construction (UGen hands out number |used|+1) as long as the entropy    *)
 (*   source works; while it fails (EntropyFail .. EntropyHeal, fk = "Entropy") a generation     *)
 (*   hands out NOTHING (error or abort) - in particular not a constant.                        *)
+(* Mode = "uniq" : the retry layer of idgen.IDManager above its generators                     *)
+(*   (GenerateUniqueID / GenerateUniqueClientID / GenerateUniquePortMappingID /                 *)
+(*   GenerateUniqueNodeID in internal/core/idgen/id_manager.go): the caller supplies a check    *)
+(*   function that answers from ITS repository (`repo`: ids that exist there - clients, mappings *)
+(*   ... - whether or not a used-marker exists for them; `taken` = pre-existing markers).        *)
+(*    for uatt < MaxU {  id := Generate()          inner loop of the generator: UNX (SetNX on   *)
+(*                                                 the marker, inner retry, inner exhaustion)    *)
+(*                       exists, err := check(id)  UChk: err or not exists -> return id          *)
+(*                       Release(id)               URel: Delete of the marker just written, next *)
+(*                    }                            candidate                                     *)
+(*    return error (resource exhausted)            URel of attempt MaxU: the budget is used up   *)
+(*   MaxU is MaxAttempts (100) in the code, small in the model; the driver stretches the model's *)
+(*   last collision to 99 / 100 / 101+ colliding candidates (uniq.go).                           *)
+(*   Deviations: ExhaustionReturnsLast (constant; seeded change C15-r5m2): with the budget used  *)
+(*   up the LAST candidate - taken according to the repository, its marker just deleted - is     *)
+(*   returned as a success (IdGen_show_exhaustion.cfg).  chkAssumed (ghost; what the code does): *)
+(*   when the check function fails (fk = "Check") the id is assumed free and returned, taken or  *)
+(*   not (IdGen_show_checkerr.cfg; such behaviours are not driven, see driver).                  *)
 (* The pattern of pre-existing ids (`taken`) and the instance layout are chosen in Init, so   *)
 (* one TLC run covers all patterns.  Ghost flags name the deviations:                         *)
 (*   nonAtomic  a fallback Set wrote a marker that another instance had written since Exists  *)
@@ -109,6 +127,8 @@ CONSTANTS Mode,         \* "gen" | "node"
           Realloc,      \* node: TRUE = an allocator may allocate again after its Release (MaxCalls allocations)
           StopChan,     \* node: "once" = one stop channel per allocator object (the code) | "fresh" = one per allocation
           WithLapse,    \* gen: TRUE = the Lapse action (long time passes once) is enabled
+          MaxU,         \* uniq: attempts of the manager's retry loop (MaxAttempts = 100 in the code)
+          ExhaustionReturnsLast, \* uniq: TRUE = deviation: the used-up budget returns the last candidate instead of the error
           Emit
 
 VARIABLES layout, taken, fk, hasnx,            \* chosen in Init (fk: the kind of operation that may fail once, or "none";
@@ -123,13 +143,15 @@ VARIABLES layout, taken, fk, hasnx,            \* chosen in Init (fk: the kind o
           expLive, wrongTier, ndup, nforeign,  \* ghosts (node)
           hb, cf, rf, ttl, stopc, allocs, hbLost, \* node: heartbeat goroutine / failures in a row / failures seen by the running loop /
                                                \*       lease of the key of slot s in periods / stopCh / allocations made / ghost
+          repo, uatt, chkAssumed,              \* uniq: ids that exist in the caller's repository / attempt of the retry loop / ghost
           hist
+uniqv == <<repo, uatt, chkAssumed>>
 genv  == <<used, cand, att, held, calls, mu, dup, tookTaken, nonAtomic>>
 hbv   == <<hb, cf, rf, ttl, stopc, allocs, hbLost>>
 nodev == <<sh, age, hold, renewed, ticks, expLive, wrongTier, ndup, nforeign, hbv>>
 fv    == <<fk, farm, hasnx>>
-vars  == <<layout, taken, fv, pc, genv, nodev, hist>>
-view  == <<layout, taken, fv, pc, genv, nodev>>
+vars  == <<layout, taken, fv, pc, genv, nodev, uniqv, hist>>
+view  == <<layout, taken, fv, pc, genv, nodev, uniqv>>
 
 Cands == 1..NCands
 Slots == 1..NSlots
@@ -138,14 +160,16 @@ InstOf(p) == IF layout = "same" THEN "g1"
              ELSE IF layout = "mixed" /\ p \in {"p1", "p2"} THEN "g1" ELSE p
 
 \* the fault kinds that exist on the chosen store (SetNX path: SetNX, Delete; fallback path: Exists, Set, Delete)
+GenLike == Mode \in {"gen", "uniq"}
 FaultsFor(nx) == LET f == IF Mode = "gen" THEN Faults \cap (IF nx THEN {"SetNX", "Delete"} ELSE {"Exists", "Set", "Delete"}) ELSE Faults
                  IN IF f = {} THEN {"none"} ELSE f
 
-Init == /\ layout \in (IF Mode = "gen" THEN Layouts ELSE {"nodes"})
+Init == /\ layout \in (IF GenLike THEN Layouts ELSE {"nodes"})
         /\ hasnx \in (IF HasNX = "both" THEN BOOLEAN ELSE {HasNX = "yes"})
         /\ fk \in FaultsFor(hasnx) /\ farm = "idle"
-        /\ taken \in (IF Mode = "gen" THEN SUBSET Cands ELSE IF Mode = "node" /\ fk # "Entropy" THEN SUBSET Slots ELSE {{}})
-        /\ used = (IF Mode = "gen" THEN taken ELSE {})
+        /\ taken \in (IF GenLike THEN SUBSET Cands ELSE IF Mode = "node" /\ fk # "Entropy" THEN SUBSET Slots ELSE {{}})
+        /\ used = (IF GenLike THEN taken ELSE {})
+        /\ repo \in (IF Mode = "uniq" THEN SUBSET Cands ELSE {{}}) /\ uatt = [p \in Procs |-> 0] /\ chkAssumed = FALSE
         /\ pc = [p \in Procs |-> "idle"] /\ cand = [p \in Procs |-> 0] /\ att = [p \in Procs |-> 0]
         /\ held = [p \in Procs |-> {}] /\ calls = [p \in Procs |-> 0]
         /\ mu = [i \in MuDom |-> "none"]
@@ -156,7 +180,7 @@ Init == /\ layout \in (IF Mode = "gen" THEN Layouts ELSE {"nodes"})
         /\ hb = [p \in Procs |-> "off"] /\ cf = [p \in Procs |-> 0] /\ rf = [p \in Procs |-> 0]
         /\ ttl = [s \in Slots |-> TTLTicks] /\ stopc = [p \in Procs |-> "open"] /\ allocs = [p \in Procs |-> 0]
         /\ hbLost = FALSE
-        /\ hist = [lay |-> layout, tk |-> taken, fk |-> fk, nx |-> hasnx, st |-> <<>>]
+        /\ hist = [lay |-> layout, tk |-> taken, rp |-> repo, fk |-> fk, nx |-> hasnx, st |-> <<>>]
 
 Out(h) == IF Emit THEN PrintT("BEH " \o ToJson(h)) ELSE TRUE
 \* who obtained an instance mutex in this step ("" = nobody); at most one mutex changes per step
@@ -179,7 +203,7 @@ Lapse ==
   /\ Mode = "gen" /\ WithLapse /\ ticks = 0 /\ used # {}
   /\ farm = "idle" /\ \A p \in Procs : pc[p] = "idle"          \* between calls
   /\ ticks' = 1
-  /\ UNCHANGED <<layout, taken, fv, pc, genv, sh, age, hold, renewed, expLive, wrongTier, ndup, nforeign, hbv>>
+  /\ UNCHANGED <<uniqv, layout, taken, fv, pc, genv, sh, age, hold, renewed, expLive, wrongTier, ndup, nforeign, hbv>>
   /\ Log("time", "Lapse", 0, "")
 
 Waiters(i) == {q \in Procs : pc[q] = "W" /\ InstOf(q) = i}
@@ -202,7 +226,7 @@ Handover(p, again) ==
 
 RetOk(p, x) == /\ held' = [held EXCEPT ![p] = held[p] \cup {x}]
                /\ dup' = (dup \/ \E q \in Procs : x \in held[q])       \* x is outstanding somewhere
-               /\ tookTaken' = (tookTaken \/ x \in taken)
+               /\ tookTaken' = (tookTaken \/ x \in taken \cup repo)
                /\ calls' = [calls EXCEPT ![p] = calls[p] + 1]
 RetErr(p) == /\ calls' = [calls EXCEPT ![p] = calls[p] + 1] /\ UNCHANGED <<held, dup, tookTaken>>
 
@@ -210,13 +234,13 @@ CallGen(p, c) ==
   /\ Mode = "gen" /\ pc[p] = "idle" /\ calls[p] < MaxCalls
   /\ cand' = [cand EXCEPT ![p] = c] /\ att' = [att EXCEPT ![p] = 1]
   /\ IF hasnx THEN pc' = [pc EXCEPT ![p] = "nx"] /\ mu' = mu ELSE Enter(p)
-  /\ UNCHANGED <<layout, taken, fv, used, held, calls, dup, tookTaken, nonAtomic, nodev>>
+  /\ UNCHANGED <<uniqv, layout, taken, fv, used, held, calls, dup, tookTaken, nonAtomic, nodev>>
   /\ Log(p, "CallGen", c, "")
 
 \* atomic set-if-absent
 NXok(p) ==
   /\ pc[p] = "nx"
-  /\ UNCHANGED <<layout, taken, fv, mu, nonAtomic, nodev>>
+  /\ UNCHANGED <<uniqv, layout, taken, fv, mu, nonAtomic, nodev>>
   /\ IF cand[p] \notin used
      THEN /\ used' = used \cup {cand[p]} /\ RetOk(p, cand[p]) /\ pc' = [pc EXCEPT ![p] = "idle"]
           /\ UNCHANGED <<cand, att>> /\ Log(p, "NX", 0, "ok")
@@ -230,14 +254,14 @@ NXok(p) ==
 NXfault(p) ==
   /\ pc[p] = "nx" /\ CanFail("SetNX") /\ att[p] < MaxAttempts /\ Spend
   /\ \E c \in Cands : /\ cand' = [cand EXCEPT ![p] = c] /\ att' = [att EXCEPT ![p] = att[p] + 1]
-                        /\ UNCHANGED <<layout, taken, mu, nonAtomic, nodev, used, pc, held, calls, dup, tookTaken>>
+                        /\ UNCHANGED <<uniqv, layout, taken, mu, nonAtomic, nodev, used, pc, held, calls, dup, tookTaken>>
                         /\ Log(p, "NX", c, "fretry")
 NX(p) == NXok(p) \/ NXfault(p)
 
 \* fallback, first half: Exists(key) under the instance mutex
 Exok(p) ==
   /\ pc[p] = "ex" /\ mu[InstOf(p)] = p
-  /\ UNCHANGED <<layout, taken, fv, used, nonAtomic, nodev>>
+  /\ UNCHANGED <<uniqv, layout, taken, fv, used, nonAtomic, nodev>>
   /\ IF cand[p] \notin used
      THEN /\ pc' = [pc EXCEPT ![p] = "set"]
           /\ UNCHANGED <<mu, cand, att, held, calls, dup, tookTaken>> /\ Log(p, "Ex", 0, "free")
@@ -251,7 +275,7 @@ Exok(p) ==
 \* Exists / Set returns an error: tryMarkAsUsed unlocks and fails, Generate goes on with the next attempt
 FBfault(p, k, a) ==
   /\ mu[InstOf(p)] = p /\ CanFail(k) /\ att[p] < MaxAttempts /\ Spend
-  /\ UNCHANGED <<layout, taken, used, nonAtomic, nodev, held, calls, dup, tookTaken>>
+  /\ UNCHANGED <<uniqv, layout, taken, used, nonAtomic, nodev, held, calls, dup, tookTaken>>
   /\ \E c \in Cands : /\ cand' = [cand EXCEPT ![p] = c] /\ att' = [att EXCEPT ![p] = att[p] + 1]
                         /\ Handover(p, TRUE)
                         /\ Log(p, a, c, "fretry")
@@ -263,37 +287,87 @@ FSetok(p) ==
   /\ nonAtomic' = (nonAtomic \/ cand[p] \in used)                       \* deviation: somebody marked it since our Exists
   /\ used' = used \cup {cand[p]}
   /\ RetOk(p, cand[p]) /\ Handover(p, FALSE)
-  /\ UNCHANGED <<layout, taken, fv, cand, att, nodev>>
+  /\ UNCHANGED <<uniqv, layout, taken, fv, cand, att, nodev>>
   /\ Log(p, "Set", 0, "ok")
 FSet(p) == FSetok(p) \/ (pc[p] = "set" /\ FBfault(p, "Set", "Set"))
 
 \* Release(x) of an id this caller holds: outstanding ends at the call, the marker goes at Del
 CallRel(p, x) ==
-  /\ Mode = "gen" /\ pc[p] = "idle" /\ calls[p] < MaxCalls /\ x \in held[p]
+  /\ GenLike /\ pc[p] = "idle" /\ calls[p] < MaxCalls /\ x \in held[p]
   /\ held' = [held EXCEPT ![p] = held[p] \ {x}]
   /\ cand' = [cand EXCEPT ![p] = x] /\ pc' = [pc EXCEPT ![p] = "del"]
-  /\ UNCHANGED <<layout, taken, fv, used, att, calls, mu, dup, tookTaken, nonAtomic, nodev>>
+  /\ UNCHANGED <<uniqv, layout, taken, fv, used, att, calls, mu, dup, tookTaken, nonAtomic, nodev>>
   /\ Log(p, "CallRel", x, "")
 
 Del(p) ==
-  /\ Mode = "gen" /\ pc[p] = "del"
+  /\ GenLike /\ pc[p] = "del"
   /\ calls' = [calls EXCEPT ![p] = calls[p] + 1] /\ pc' = [pc EXCEPT ![p] = "idle"]
-  /\ UNCHANGED <<layout, taken, cand, att, held, mu, dup, tookTaken, nonAtomic, nodev>>
+  /\ UNCHANGED <<uniqv, layout, taken, cand, att, held, mu, dup, tookTaken, nonAtomic, nodev>>
   /\ \/ used' = used \ {cand[p]} /\ UNCHANGED fv /\ Log(p, "Del", 0, "")
      \/ CanFail("Delete") /\ Spend /\ used' = used /\ Log(p, "Del", 0, "fault")   \* Release returns the error, the marker stays
+
+\* =========================== the manager's retry layer (Mode = "uniq") ======================
+\* GenerateUniqueXxxID(check): first attempt, first candidate of the inner generator
+UCall(p, c) ==
+  /\ Mode = "uniq" /\ pc[p] = "idle" /\ calls[p] < MaxCalls
+  /\ cand' = [cand EXCEPT ![p] = c] /\ att' = [att EXCEPT ![p] = 1] /\ uatt' = [uatt EXCEPT ![p] = 1]
+  /\ pc' = [pc EXCEPT ![p] = "unx"]
+  /\ UNCHANGED <<layout, taken, fv, used, held, calls, mu, dup, tookTaken, nonAtomic, nodev, repo, chkAssumed>>
+  /\ Log(p, "UCall", c, "")
+
+\* the inner generator's SetNX on the marker of its candidate
+UNX(p) ==
+  /\ pc[p] = "unx"
+  /\ UNCHANGED <<layout, taken, fv, mu, nonAtomic, nodev, uniqv>>
+  /\ IF cand[p] \notin used
+     THEN /\ used' = used \cup {cand[p]} /\ pc' = [pc EXCEPT ![p] = "uchk"]            \* Generate returns the candidate
+          /\ UNCHANGED <<cand, att, held, calls, dup, tookTaken>> /\ Log(p, "UNX", 0, "ok")
+     ELSE IF att[p] < MaxAttempts
+     THEN \E c \in Cands : /\ cand' = [cand EXCEPT ![p] = c] /\ att' = [att EXCEPT ![p] = att[p] + 1]
+                           /\ UNCHANGED <<used, pc, held, calls, dup, tookTaken>> /\ Log(p, "UNX", c, "retry")
+     ELSE /\ RetErr(p) /\ pc' = [pc EXCEPT ![p] = "idle"]              \* Generate fails (ErrIDExhausted): the manager returns that error
+          /\ UNCHANGED <<used, cand, att>> /\ Log(p, "UNX", 0, "err")
+
+\* the caller's check function answers for the candidate
+UChk(p) ==
+  /\ pc[p] = "uchk"
+  /\ UNCHANGED <<layout, taken, used, mu, nonAtomic, nodev, cand, att, repo, uatt>>
+  /\ \/ /\ UNCHANGED <<fv, chkAssumed>>
+        /\ IF cand[p] \notin repo
+           THEN RetOk(p, cand[p]) /\ pc' = [pc EXCEPT ![p] = "idle"] /\ Log(p, "UChk", 0, "free")
+           ELSE pc' = [pc EXCEPT ![p] = "urel"] /\ UNCHANGED <<held, calls, dup, tookTaken>> /\ Log(p, "UChk", 0, "exists")
+     \* the check function returns an error: the code assumes "does not exist" and returns the id
+     \/ /\ CanFail("Check") /\ Spend
+        /\ RetOk(p, cand[p]) /\ pc' = [pc EXCEPT ![p] = "idle"]
+        /\ chkAssumed' = (chkAssumed \/ cand[p] \in repo)                                 \* deviation
+        /\ Log(p, "UChk", 0, "ferr")
+
+\* the candidate exists: its marker is released (Delete), then the next attempt - or the budget is used up
+URel(p) ==
+  /\ pc[p] = "urel"
+  /\ used' = used \ {cand[p]}
+  /\ UNCHANGED <<layout, taken, fv, mu, nonAtomic, nodev, repo, chkAssumed>>
+  /\ IF uatt[p] < MaxU
+     THEN \E c \in Cands : /\ cand' = [cand EXCEPT ![p] = c] /\ att' = [att EXCEPT ![p] = 1]
+                           /\ uatt' = [uatt EXCEPT ![p] = uatt[p] + 1] /\ pc' = [pc EXCEPT ![p] = "unx"]
+                           /\ UNCHANGED <<held, calls, dup, tookTaken>> /\ Log(p, "URel", c, "retry")
+     ELSE /\ pc' = [pc EXCEPT ![p] = "idle"] /\ UNCHANGED <<cand, att, uatt>>
+          /\ IF ExhaustionReturnsLast
+             THEN RetOk(p, cand[p]) /\ Log(p, "URel", 0, "last")              \* deviation: the taken, unmarked candidate is handed out
+             ELSE RetErr(p) /\ Log(p, "URel", 0, "err")                      \* resource exhausted
 
 \* =========================== UUID ids ====================================================
 \* The UUID generators need no store; to save a TLC run they are also a sub-model of Mode "node":
 \* an initial state with fk = "Entropy" runs ONLY these actions, every other one only the allocator's.
 UuidOn == Mode = "uuid" \/ (Mode = "node" /\ fk = "Entropy")
 EntropyFail == /\ UuidOn /\ fk = "Entropy" /\ farm = "idle" /\ farm' = "failing" /\ fk' = fk /\ hasnx' = hasnx
-               /\ UNCHANGED <<layout, taken, pc, genv, nodev>> /\ Log("env", "EntropyFail", 0, "")
+               /\ UNCHANGED <<uniqv, layout, taken, pc, genv, nodev>> /\ Log("env", "EntropyFail", 0, "")
 EntropyHeal == /\ UuidOn /\ farm = "failing" /\ farm' = "spent" /\ fk' = fk /\ hasnx' = hasnx
-               /\ UNCHANGED <<layout, taken, pc, genv, nodev>> /\ Log("env", "EntropyHeal", 0, "")
+               /\ UNCHANGED <<uniqv, layout, taken, pc, genv, nodev>> /\ Log("env", "EntropyHeal", 0, "")
 \* one Generate call of a UUID generator (it touches no store: one step)
 UGen(p) ==
   /\ UuidOn /\ calls[p] < MaxCalls
-  /\ UNCHANGED <<layout, taken, fv, pc, cand, att, mu, nonAtomic, nodev>>
+  /\ UNCHANGED <<uniqv, layout, taken, fv, pc, cand, att, mu, nonAtomic, nodev>>
   /\ IF farm = "failing"
      THEN RetErr(p) /\ UNCHANGED used /\ Log(p, "UGen", 0, "ferr")
      ELSE LET x == Cardinality(used) + 1 IN
@@ -310,14 +384,14 @@ GivesUp(lf, c) == \/ HbGiveUp = "lifetime" /\ lf >= GiveUpAfter
 CallAlloc(n) ==
   /\ Mode = "node" /\ fk # "Entropy" /\ pc[n] = "idle" /\ allocs[n] < (IF Realloc THEN MaxCalls ELSE 1)
   /\ pc' = [pc EXCEPT ![n] = "claim"] /\ cand' = [cand EXCEPT ![n] = 1]
-  /\ UNCHANGED <<layout, taken, fv, used, att, held, calls, mu, dup, tookTaken, nonAtomic, nodev>>
+  /\ UNCHANGED <<uniqv, layout, taken, fv, used, att, held, calls, mu, dup, tookTaken, nonAtomic, nodev>>
   /\ Log(n, "CallAlloc", 0, "")
 
 \* SetNXRuntime on the key of slot cand[n]; success starts the heartbeat goroutine, which returns at
 \* once if this allocator's stopCh is already closed (allocation after Release on the same object)
 Claimok(n) ==
   /\ Mode = "node" /\ pc[n] = "claim"
-  /\ UNCHANGED <<layout, taken, fv, used, att, held, calls, mu, dup, tookTaken, nonAtomic, ticks, expLive, wrongTier>>
+  /\ UNCHANGED <<uniqv, layout, taken, fv, used, att, held, calls, mu, dup, tookTaken, nonAtomic, ticks, expLive, wrongTier>>
   /\ LET s == cand[n] IN
      IF ~sh[s]
      THEN /\ sh' = [sh EXCEPT ![s] = TRUE] /\ age' = [age EXCEPT ![s] = 0] /\ ttl' = [ttl EXCEPT ![s] = TTLTicks]
@@ -340,7 +414,7 @@ Claimok(n) ==
 \* SetNXRuntime returns an error: the allocator logs it and goes on with the next slot
 Claimfault(n) ==
   /\ Mode = "node" /\ pc[n] = "claim" /\ CanFail("SetNX") /\ Spend
-  /\ UNCHANGED <<layout, taken, used, att, held, calls, mu, dup, tookTaken, nonAtomic, nodev>>
+  /\ UNCHANGED <<uniqv, layout, taken, used, att, held, calls, mu, dup, tookTaken, nonAtomic, nodev>>
   /\ IF cand[n] < NSlots
      THEN cand' = [cand EXCEPT ![n] = cand[n] + 1] /\ UNCHANGED pc /\ Log(n, "Claim", cand[n], "fretry")
      ELSE pc' = [pc EXCEPT ![n] = "failed"] /\ UNCHANGED cand /\ Log(n, "Claim", cand[n], "ferr")
@@ -350,7 +424,7 @@ Claim(n) == Claimok(n) \/ Claimfault(n)
 NRelNoop(n) ==
   /\ Mode = "node" /\ pc[n] = "failed"
   /\ pc' = [pc EXCEPT ![n] = "gone"]
-  /\ UNCHANGED <<layout, taken, fv, genv, nodev>>
+  /\ UNCHANGED <<uniqv, layout, taken, fv, genv, nodev>>
   /\ Log(n, "CallRel", 0, "noop")
 
 \* heartbeat of a live node, once per period: Set(key, nodeID, 90 s) succeeds
@@ -363,7 +437,7 @@ Renew(n) ==
   /\ wrongTier' = (wrongTier \/ ~RenewHitsClaim)                                                      \* deviation
   \* calls[n] (node mode, with transient faults): successful renewals since the last failed one, capped
   /\ calls' = IF MaxRenewFails > 0 /\ att[n] > 0 /\ calls[n] < MaxCalls THEN [calls EXCEPT ![n] = calls[n] + 1] ELSE calls
-  /\ UNCHANGED <<layout, taken, fv, pc, used, cand, att, held, mu, dup, tookTaken, nonAtomic, hold, ticks, expLive, ndup, nforeign,
+  /\ UNCHANGED <<uniqv, layout, taken, fv, pc, used, cand, att, held, mu, dup, tookTaken, nonAtomic, hold, ticks, expLive, ndup, nforeign,
                  hb, rf, stopc, allocs, hbLost>>
   /\ Log(n, "Renew", hold[n], IF RenewHitsClaim THEN "claim" ELSE "local")
 
@@ -379,7 +453,7 @@ RenewFail(n) ==
        /\ hb' = IF quit THEN [hb EXCEPT ![n] = "stopped"] ELSE hb
        /\ hbLost' = (hbLost \/ quit)                                           \* deviation
   /\ calls' = [calls EXCEPT ![n] = 0]
-  /\ UNCHANGED <<layout, taken, fv, pc, used, cand, held, mu, dup, tookTaken, nonAtomic,
+  /\ UNCHANGED <<uniqv, layout, taken, fv, pc, used, cand, held, mu, dup, tookTaken, nonAtomic,
                  sh, age, hold, ticks, expLive, wrongTier, ndup, nforeign, ttl, stopc, allocs>>
   /\ Log(n, "Renew", hold[n], "fail")
 
@@ -392,19 +466,19 @@ Tick ==
   /\ \A s \in Slots : (sh[s] /\ s \notin taken) => age[s] < ttl[s]       \* a due expiry happens before more time passes
   /\ age' = [s \in Slots |-> IF sh[s] /\ s \notin taken THEN age[s] + 1 ELSE age[s]]   \* foreign holders keep their claims fresh
   /\ renewed' = [n \in Procs |-> FALSE] /\ ticks' = ticks + 1
-  /\ UNCHANGED <<layout, taken, fv, pc, genv, sh, hold, expLive, wrongTier, ndup, nforeign, hbv>>
+  /\ UNCHANGED <<uniqv, layout, taken, fv, pc, genv, sh, hold, expLive, wrongTier, ndup, nforeign, hbv>>
   /\ Log("time", "Tick", 0, "")
 
 SlotExpire(s) ==
   /\ Mode = "node" /\ sh[s] /\ s \notin taken /\ age[s] = ttl[s]
   /\ sh' = [sh EXCEPT ![s] = FALSE] /\ age' = [age EXCEPT ![s] = 0]
   /\ expLive' = (expLive \/ \E n \in Procs : Live(n) /\ hold[n] = s)    \* deviation
-  /\ UNCHANGED <<layout, taken, fv, pc, genv, hold, renewed, ticks, wrongTier, ndup, nforeign, hbv>>
+  /\ UNCHANGED <<uniqv, layout, taken, fv, pc, genv, hold, renewed, ticks, wrongTier, ndup, nforeign, hbv>>
   /\ Log("time", "Expire", s, IF \E n \in Procs : Live(n) /\ hold[n] = s THEN "live" ELSE "dead")
 
 NCallRel(n) ==
   /\ Mode = "node" /\ Live(n)
-  /\ UNCHANGED <<layout, taken, fv, genv, sh, age, hold, renewed, ticks, expLive, wrongTier, ndup, nforeign, cf, rf, ttl, allocs, hbLost>>
+  /\ UNCHANGED <<uniqv, layout, taken, fv, genv, sh, age, hold, renewed, ticks, expLive, wrongTier, ndup, nforeign, cf, rf, ttl, allocs, hbLost>>
   /\ IF stopc[n] = "closed"
      \* (only with Realloc on the code as it is) close of a closed channel: Release panics, nothing is deleted
      THEN /\ pc' = [pc EXCEPT ![n] = "relfailed"] /\ hb' = [hb EXCEPT ![n] = "off"] /\ UNCHANGED stopc
@@ -415,7 +489,7 @@ NCallRel(n) ==
 
 NDel(n) ==
   /\ Mode = "node" /\ pc[n] = "rel"
-  /\ UNCHANGED <<layout, taken, genv, renewed, ticks, expLive, wrongTier, ndup, nforeign, hbv>>
+  /\ UNCHANGED <<uniqv, layout, taken, genv, renewed, ticks, expLive, wrongTier, ndup, nforeign, hbv>>
   /\ \/ /\ sh' = [sh EXCEPT ![hold[n]] = FALSE] /\ age' = [age EXCEPT ![hold[n]] = 0]   \* Delete: unconditional
         /\ hold' = [hold EXCEPT ![n] = 0]
         /\ pc' = [pc EXCEPT ![n] = IF Realloc /\ allocs[n] < MaxCalls THEN "idle" ELSE "gone"]   \* nodeID = "": may allocate again
@@ -429,13 +503,14 @@ NDel(n) ==
 Crash(n) ==
   /\ Mode = "node" /\ MaxTicks > 0 /\ Live(n)
   /\ pc' = [pc EXCEPT ![n] = "dead"] /\ hb' = [hb EXCEPT ![n] = "off"]
-  /\ UNCHANGED <<layout, taken, fv, genv, sh, age, hold, renewed, ticks, expLive, wrongTier, ndup, nforeign, cf, rf, ttl, stopc, allocs, hbLost>>
+  /\ UNCHANGED <<uniqv, layout, taken, fv, genv, sh, age, hold, renewed, ticks, expLive, wrongTier, ndup, nforeign, cf, rf, ttl, stopc, allocs, hbLost>>
   /\ Log(n, "Crash", hold[n], "")
 
 Next == \/ \E p \in Procs : \/ \E c \in Cands : CallGen(p, c)
                             \/ NX(p) \/ Ex(p) \/ FSet(p) \/ Del(p)
                             \/ \E x \in Cands : CallRel(p, x)
                             \/ UGen(p)
+                            \/ (\E c \in Cands : UCall(p, c)) \/ UNX(p) \/ UChk(p) \/ URel(p)
                             \/ CallAlloc(p) \/ Claim(p) \/ Renew(p) \/ RenewFail(p) \/ NCallRel(p) \/ NRelNoop(p) \/ NDel(p) \/ Crash(p)
         \/ Tick \/ Lapse \/ EntropyFail \/ EntropyHeal
         \/ \E s \in Slots : SlotExpire(s)
@@ -451,11 +526,12 @@ TypeOK == /\ used \subseteq Cands /\ taken \subseteq (Cands \cup Slots)
           /\ \A p \in Procs : /\ hb[p] \in {"off", "run", "stopped"} /\ stopc[p] \in {"open", "closed"}
                               /\ cf[p] \in 0..MaxConsecFails /\ rf[p] \in 0..MaxRenewFails /\ allocs[p] \in 0..MaxCalls
           /\ \A s \in Slots : ttl[s] \in {TTLTicks, RenewTTLTicks}
+          /\ repo \subseteq Cands /\ \A p \in Procs : uatt[p] \in 0..MaxU
 \* (1) no two un-released successful generations are equal
 Unique       == ~dup
 HeldDisjoint == \A p, q \in Procs : p # q => held[p] \cap held[q] = {}
 \* (2) a taken candidate is never returned
-NoTaken      == ~tookTaken /\ \A p \in Procs : held[p] \cap taken = {}
+NoTaken      == ~tookTaken /\ \A p \in Procs : held[p] \cap (taken \cup repo) = {}
 \* (3) every outstanding id is visibly taken (its marker exists) - what the next generation relies on
 HeldMarked   == ~dup => \A p \in Procs : held[p] \subseteq used
 \* (4) exhaustion: a call gives up (error) exactly after MaxAttempts taken candidates - by construction of
@@ -467,6 +543,12 @@ Exhaustion   == (taken = Cands /\ Mode = "gen") => \A p \in Procs : held[p] = {}
 GenOK == IF hasnx THEN Unique /\ HeldDisjoint /\ NoTaken /\ HeldMarked /\ Exhaustion
                   ELSE NoTaken /\ Exhaustion /\ (Unique \/ nonAtomic) /\ (layout = "same" => (Unique /\ HeldMarked))
 FallbackOnlyDeviation == (Unique \/ nonAtomic) /\ (layout = "same" => (Unique /\ HeldMarked))
+\* the manager's retry layer: a returned id was free according to the markers AND the caller's repository, the used-up
+\* budget is an error, and between calls no marker is left over (every marker is a pre-existing one or an outstanding id's)
+UniqClean == (Mode = "uniq" /\ \A p \in Procs : pc[p] = "idle") => used \subseteq (taken \cup UNION {held[p] : p \in Procs})
+UniqExhaustion == (Mode = "uniq" /\ repo \cup taken = Cands) => \A p \in Procs : held[p] = {}
+UniqOK == /\ Unique /\ HeldDisjoint /\ HeldMarked /\ UniqClean
+          /\ (chkAssumed \/ (NoTaken /\ UniqExhaustion))     \* (the only as-is route to a taken id: a failing check function)
 \* node ids
 \* a node whose allocation failed holds nothing (so its Release has nothing to delete)
 FailedHoldsNothing == \A n \in Procs : pc[n] \in {"failed", "gone"} => hold[n] = 0
